@@ -371,23 +371,27 @@ std::unique_ptr<Graph::NodeIterator> GlobalGraph::allNodesIterator() const
 
 std::unique_ptr<Graph::NodeIterator> GlobalGraph::outgoingNeighborNodesIterator(Graph::NodeId node)
 {
+  nodeMustExist_(node, "node to iterate from");
   return std::unique_ptr<Graph::NodeIterator>(new NodesIteratorClass<Graph::OUTGOINGNEIGHBORITER, false>(*this, node));
 }
 
 
 std::unique_ptr<Graph::NodeIterator> GlobalGraph::incomingNeighborNodesIterator(Graph::NodeId node)
 {
+  nodeMustExist_(node, "node to iterate from");
   return std::unique_ptr<Graph::NodeIterator>(new NodesIteratorClass<Graph::INCOMINGNEIGHBORITER, false>(*this, node));
 }
 
 std::unique_ptr<Graph::NodeIterator> GlobalGraph::outgoingNeighborNodesIterator(Graph::NodeId node) const
 {
+  nodeMustExist_(node, "node to iterate from");
   return std::unique_ptr<Graph::NodeIterator>(new NodesIteratorClass<Graph::OUTGOINGNEIGHBORITER, true>(*this, node));
 }
 
 
 std::unique_ptr<Graph::NodeIterator> GlobalGraph::incomingNeighborNodesIterator(Graph::NodeId node) const
 {
+  nodeMustExist_(node, "node to iterate from");
   return std::unique_ptr<Graph::NodeIterator>(new NodesIteratorClass<Graph::INCOMINGNEIGHBORITER, true>(*this, node));
 }
 
@@ -897,11 +901,13 @@ std::unique_ptr<Graph::EdgeIterator> GlobalGraph::allEdgesIterator()
 
 std::unique_ptr<Graph::EdgeIterator> GlobalGraph::outgoingEdgesIterator(Graph::NodeId node)
 {
+  nodeMustExist_(node, "node to iterate from");
   return std::unique_ptr<Graph::EdgeIterator>(new EdgesIteratorClass<Graph::OUTGOINGNEIGHBORITER, false>(*this, node));
 }
 
 std::unique_ptr<Graph::EdgeIterator> GlobalGraph::incomingEdgesIterator(Graph::NodeId node)
 {
+  nodeMustExist_(node, "node to iterate from");
   return std::unique_ptr<Graph::EdgeIterator>(new EdgesIteratorClass<Graph::INCOMINGNEIGHBORITER, false>(*this, node));
 }
 
@@ -912,11 +918,13 @@ std::unique_ptr<Graph::EdgeIterator> GlobalGraph::allEdgesIterator() const
 
 std::unique_ptr<Graph::EdgeIterator> GlobalGraph::outgoingEdgesIterator(Graph::NodeId node) const
 {
+  nodeMustExist_(node, "node to iterate from");
   return std::unique_ptr<Graph::EdgeIterator>(new EdgesIteratorClass<Graph::OUTGOINGNEIGHBORITER, true>(*this, node));
 }
 
 std::unique_ptr<Graph::EdgeIterator> GlobalGraph::incomingEdgesIterator(Graph::NodeId node) const
 {
+  nodeMustExist_(node, "node to iterate from");
   return std::unique_ptr<Graph::EdgeIterator>(new EdgesIteratorClass<Graph::INCOMINGNEIGHBORITER, true>(*this, node));
 }
 
